@@ -133,7 +133,7 @@ func runC12(c *Ctx) {
 
 		// write permission: local path
 		canWrite := boolCallGate("Permissions(identity).CanWrite()==true", "acl/list", "CanWrite", 0, true, nil)
-		c.RequireGate("C12.2-write-permission", setLocal, canWrite, CallSinks(setLocal, CalleeIs(innerSet), false), "inner.Set")
+		c.RequireGate("C12.2-write-permission", setLocal, canWrite, CallSinksX(setLocal, CalleeIs(innerSet), false), "inner.Set")
 		// remote path: an element is kept only across PermissionsAtRecord==nil and CanWrite==true
 		par := CalleeNamed("acl/list", "AclState", "PermissionsAtRecord")
 		for _, g := range []Gate{GErrNil("PermissionsAtRecord(AclId, identity)==nil", par), canWrite} {
@@ -287,7 +287,7 @@ func runC12(c *Ctx) {
 				}
 				return true, a.Op == token.NEQ
 			})
-			c.RequireGate("C12.4-index-undo", undo, g, CallSinks(undo, CalleeIs(mDiffSet, mDiffRem), false), "index undo")
+			c.RequireGate("C12.4-index-undo", undo, g, CallSinksX(undo, CalleeIs(mDiffSet, mDiffRem), false), "index undo")
 		}
 	}
 	_ = strings.Contains
